@@ -32,6 +32,7 @@
 #include <amgcl/relaxation/as_block.hpp>
 #include <amgcl/solver/cg.hpp>
 #include <amgcl/solver/bicgstab.hpp>
+#include <amgcl/solver/gmres.hpp>
 #include <omp.h>
 
 #ifndef PART
@@ -43,7 +44,8 @@ typedef backend::crs<double, ptrdiff_t, ptrdiff_t> M;
 typedef backend::builtin<double> SB;
 typedef std::complex<double> cd;
 
-static int md(long double v) { if (!(v > 0)) return -99999; double q = 1000.0 * std::log10((double)v); return q < -99999 ? -99999 : (q > 99999 ? 99999 : (int)std::lrint(q)); }
+static int md(long double v) { if (!std::isfinite((double)v)) return 99999;   /* NaN / Inf: never "small" */
+    if (!(v > 0)) return -99999; double q = 1000.0 * std::log10((double)v); return q < -99999 ? -99999 : (q > 99999 ? 99999 : (int)std::lrint(q)); }
 static std::string J(const M &A, vr::obj &o) { bool ex = true; std::string s = vr::crs_json(A, ex); if (!ex) o.exact = false; return s; }
 static void put(vr::obj &o) { o.i("nt", omp_get_max_threads()); if (o.exact) vr::emit(o.done()); else { vr::obj x; x.str("e", "Inexact"); vr::emit(x.done()); } }
 
@@ -222,6 +224,54 @@ static void complex_forms(vr::rng &g, bool shifted) {
         vr::obj q; q.str("name", "real 2n x 2n form (complex adapter)").str("exc", exc).i("iters", it).i("reported_md", md(err)).i("true_md", md(true_res(zr))).i("diff_md", md(std::sqrt(dn / (zn > 0 ? zn : 1)))); forms << "," << q.done(); }
     o.raw("forms", "[" + forms.str() + "]"); put(o);
 }
+// complex system with 2x2 block structure: scalar complex value type vs block value type static_matrix<complex,2,2>
+// (block_matrix adapter, block-valued vectors; make_block_solver / reinterpret_as_rhs do not exist for complex blocks)
+// vs the real 4n x 4n form through the complex adapter
+template <template <class> class IterSolver>
+static void cblock_forms(vr::rng &g, bool shifted, const char *solver) {
+    typedef static_matrix<cd, 2, 2> CBlk; typedef static_matrix<cd, 2, 1> CRhs;
+    typedef backend::builtin<cd> CB; typedef backend::builtin<CBlk> CBB;
+    int nb = g.range(40, vr::thorough() ? 300 : 120);
+    auto P = vr::random_mmatrix(g, nb, 2.5 / nb, 3, 2);
+    const cd I(0, 1);
+    const cd E[2][2] = {{1.0, 0.4 * I}, {0.2 * I, 0.8}};                 // coupling with a higher-numbered node (lower: E^H)
+    const cd D[2][2] = {{0.0, 0.5 * I}, {-0.5 * I, 0.0}};               // Hermitian part added to 1.5 P_ii on the diagonal block
+    size_t n = 2 * nb; std::vector<ptrdiff_t> ptr(1, 0), col; std::vector<cd> val;
+    for (int i = 0; i < nb; ++i) for (int r = 0; r < 2; ++r) {
+        for (ptrdiff_t p = P->ptr[i]; p < P->ptr[i+1]; ++p) { int j = (int)P->col[p];
+            for (int c = 0; c < 2; ++c) {
+                cd v = j == i ? (r == c ? cd(1.5 * P->val[p], shifted ? 1.5 : 0.0) : cd(0)) + D[r][c] : (i < j ? P->val[p] * E[r][c] : P->val[p] * std::conj(E[c][r]));
+                col.push_back(2 * j + c); val.push_back(v); } }
+        ptr.push_back((ptrdiff_t)col.size());
+    }
+    std::vector<cd> f(n); for (size_t i = 0; i < n; ++i) f[i] = std::polar(1.0 + 0.5 * std::sin(0.3 * i), 0.7 * i);   // a different phase in every entry
+    auto T = std::tie(n, ptr, col, val);
+    const double tol = 1e-10;
+    auto true_res = [&](const std::vector<cd> &x) { long double rn = 0, fn = 0; for (size_t i = 0; i < n; ++i) { std::complex<long double> s(f[i].real(), f[i].imag());
+            for (ptrdiff_t p = ptr[i]; p < ptr[i+1]; ++p) s -= std::complex<long double>(val[p].real(), val[p].imag()) * std::complex<long double>(x[col[p]].real(), x[col[p]].imag());
+            rn += std::norm(s); fn += std::norm(std::complex<long double>(f[i].real(), f[i].imag())); } return std::sqrt(rn / fn); };
+    std::vector<cd> ref; std::ostringstream forms; int cnt = 0;
+    auto report = [&](const char *name, const std::string &exc, size_t it, double err, const std::vector<cd> &x) {
+        if (ref.empty()) ref = x;
+        long double dn = 0, zn = 0; for (size_t i = 0; i < n; ++i) { dn += std::norm(std::complex<long double>(x[i].real() - ref[i].real(), x[i].imag() - ref[i].imag())); zn += std::norm(std::complex<long double>(ref[i].real(), ref[i].imag())); }
+        vr::obj q; q.str("name", name).str("exc", exc).i("iters", it).i("reported_md", md(err)).i("true_md", md(true_res(x))).i("diff_md", md(std::sqrt(dn / (zn > 0 ? zn : 1))));
+        forms << (cnt++ ? "," : "") << q.done(); };
+    {   std::vector<cd> x(n, cd(0)); size_t it = 0; double err = 1; std::string exc;
+        try { run_solver< make_solver< amg<CB, coarsening::smoothed_aggregation, relaxation::spai0>, IterSolver<CB> > >(T, f, x, tol, it, err); } catch (const std::exception &e) { exc = e.what(); }
+        report("scalar complex value type", exc, it, err, x); }
+    {   std::vector<cd> x(n, cd(0)); size_t it = 0; double err = 1; std::string exc;
+        try { std::vector<CRhs> F(nb), X(nb); for (int i = 0; i < nb; ++i) for (int r = 0; r < 2; ++r) { F[i](r) = f[2 * i + r]; X[i](r) = cd(0); }
+              run_solver< make_solver< amg<CBB, coarsening::aggregation, relaxation::spai0>, IterSolver<CBB> > >(adapter::block_matrix<CBlk>(T), F, X, tol, it, err);
+              for (int i = 0; i < nb; ++i) for (int r = 0; r < 2; ++r) x[2 * i + r] = X[i](r); } catch (const std::exception &e) { exc = e.what(); }
+        report("block value type static_matrix<complex,2,2> (block_matrix adapter)", exc, it, err, x); }
+    {   std::vector<cd> x(n, cd(0)); size_t it = 0; double err = 1; std::string exc;
+        std::vector<double> fr(adapter::complex_range(f).begin(), adapter::complex_range(f).end()), xr(2 * n, 0.0);
+        try { run_solver< make_solver< amg<SB, coarsening::smoothed_aggregation, relaxation::spai0>, IterSolver<SB> > >(adapter::complex_matrix(T), fr, xr, tol, it, err); } catch (const std::exception &e) { exc = e.what(); }
+        for (size_t i = 0; i < n; ++i) x[i] = cd(xr[2 * i], xr[2 * i + 1]);
+        report("real form (complex adapter)", exc, it, err, x); }
+    vr::obj o; o.str("k", "cforms").str("sys", std::string(shifted ? "block shifted, " : "block hermitian, ") + solver).i("n", n).i("tol_md", -10000).raw("forms", "[" + forms.str() + "]"); put(o);
+}
+
 // float preconditioner under a double solver (examples/mixed_precision.cpp) on Poisson-type problems
 static void mixed_precision(vr::rng &g, int which) {
     std::shared_ptr<M> A; std::string name;
@@ -354,6 +404,8 @@ int main(int argc, char **argv) {
         for (int n = 1; n <= 3; ++n) for (int m = 1; m <= 3; ++m) for (int k = 0; k < 6; ++k) v_complex(g, n, m, "small");
     } else {
         for (int r = 0; r < (th ? 12 : 3); ++r) { complex_forms(g, false); complex_forms(g, true); }
+        for (int r = 0; r < (th ? 6 : 2); ++r) { cblock_forms<solver::cg>(g, false, "cg"); cblock_forms<solver::gmres>(g, false, "gmres");
+                                                 cblock_forms<solver::bicgstab>(g, true, "bicgstab"); cblock_forms<solver::gmres>(g, true, "gmres"); }
         for (int w = 0; w < (th ? 12 : 5); ++w) mixed_precision(g, w);
     }
 #elif PART == 2
